@@ -210,7 +210,6 @@ Proof.
 Qed.
 
 (* ---------- CSRMatrix::conjugate ---------- *)
-(* the arrays are right: same pattern, conjugated values ... *)
 Theorem conjugate_entries (m : mat) i c : conj_zero Ops -> canon m -> i < crow m ->
   entry (conjugate Ops m) i c = econj Ops (entry m i c).
 Proof.
@@ -230,63 +229,38 @@ Proof.
   - rewrite T2, Hc0. apply entry_miss. exact T1.
 Qed.
 
-(* ... and for a square matrix the result is a valid canonical matrix *)
-Theorem conjugate_guarded (m : mat) : conj_zero Ops -> Inv m -> crow m = ccol m ->
+(* any shape: canonical, same dimensions, conjugated entries *)
+Theorem conjugate_spec (m : mat) : conj_zero Ops -> Inv m ->
   Inv (conjugate Ops m) /\ crow (conjugate Ops m) = crow m /\ ccol (conjugate Ops m) = ccol m /\
   forall i c, i < crow m -> entry (conjugate Ops m) i c = econj Ops (entry m i c).
 Proof.
-  intros Hc0 HI Hsq. pose proof HI as ((Hwf & Hs) & Hc & Hd).
-  split; [|split; [cbn; lia|split; [cbn; lia|]]].
+  intros Hc0 HI. pose proof HI as ((Hwf & Hs) & Hc & Hd).
+  split; [|split; [reflexivity|split; [reflexivity|]]].
   - destruct Hwf as (W1 & W2 & W3 & W4 & W5).
     unfold conjugate. split; [split|split].
-    + unfold wf, pN in *; cbn [cp cj cx crow ccol]. rewrite <- Hsq. repeat split; try assumption.
-      unfold lenN in *. rewrite map_length. assumption.
-    + cbn [crow]. rewrite <- Hsq. exact Hs.
-    + intros k Hk. cbn [cj ccol] in *. rewrite Hsq. apply Hc. assumption.
-    + unfold dims_ok in *; cbn [crow ccol]. lia.
+    + unfold wf, pN in *; cbn [cp cj cx crow ccol]. repeat split; try assumption.
+      rewrite lenN_map. assumption.
+    + exact Hs.
+    + exact Hc.
+    + exact Hd.
   - intros i c Hi. apply conjugate_entries; [assumption|split; assumption|assumption].
 Qed.
 
 (* ---------- csr_diagonal ---------- *)
-Lemma diag_loop_spec (A : mat) i t : wf A -> i < crow A -> row_sorted A i -> lenN (cj A) < 2 ^ 31 ->
-  pN A i <= t -> t < pN A (i + 1) -> nthN (cj A) t 0 = i ->
-  forall fuel rs re,
-    (N.to_nat (re - rs) < fuel)%nat ->
-    pN A i <= rs -> rs <= t -> t <= re -> re <= pN A (i + 1) ->
-    diag_loop Ops fuel A i rs re = Ok (entry A i i).
+(* the repaired search is the binary search of CSRMatrix::get *)
+Lemma diag_loop_get_loop (A : mat) i : forall fuel rs re,
+  diag_loop Ops fuel A i rs re = get_loop Ops fuel (cj A) (cx A) i rs re.
 Proof.
-  intros Hwf Hi Hs Hsmall T1 T2 T3.
-  assert (Hn : pN A (i + 1) <= lenN (cj A)) by (apply pN_le_nnz; [assumption|lia]).
-  assert (Hx : lenN (cx A) = lenN (cj A)) by apply Hwf.
-  induction fuel; intros rs re Hf R1 R2 R3 R4; [lia|].
-  cbn [diag_loop]. destruct (N.leb_spec rs re); [|lia].
-  rewrite uadd_small by lia.
-  set (jj := (rs + re) / 2). assert (Hjj : rs <= jj /\ jj <= re) by (unfold jj; lia).
-  assert (jj < pN A (i + 1)) by (unfold jj; lia).
-  rewrite (getN_ok (cj A) jj 0) by lia. cbn [bind].
-  destruct (N.eqb_spec (nthN (cj A) jj 0) i) as [Heq|Hne].
-  - rewrite (getN_ok (cx A) jj (ezero Ops)) by lia. f_equal. symmetry.
-    apply entry_hit; [assumption|lia|lia|assumption].
-  - destruct (N.ltb_spec (nthN (cj A) jj 0) i) as [Hlt|Hge].
-    + (* the diagonal entry lies to the right *)
-      assert (jj < t).
-      { destruct (N.lt_trichotomy jj t) as [|[->|Hgt]]; [assumption|lia|].
-        specialize (Hs t jj T1 Hgt ltac:(lia)). lia. }
-      rewrite uadd_small by lia. apply IHfuel; lia.
-    + assert (t < jj).
-      { destruct (N.lt_trichotomy jj t) as [Hl|[->|]]; [|lia|assumption].
-        specialize (Hs jj t ltac:(lia) Hl T2). lia. }
-      rewrite usub_small by lia. apply IHfuel; lia.
+  induction fuel; intros rs re; [reflexivity|].
+  cbn [diag_loop get_loop]. destruct (rs <? re); [|reflexivity].
+  destruct (getN (cj A) (uadd rs re / 2)); cbn [bind]; try reflexivity.
+  destruct (a =? i); [reflexivity|]. destruct (a <? i); apply IHfuel.
 Qed.
 
-(* guard: every diagonal position of the matrix is stored *)
-Definition diag_present (A : mat) : Prop :=
-  forall i, i < N.min (crow A) (ccol A) -> exists t, pN A i <= t /\ t < pN A (i + 1) /\ nthN (cj A) t 0 = i.
-
-Theorem diagonal_guarded (A : mat) : Inv A -> diag_present A ->
+Theorem diagonal_spec (A : mat) : Inv A ->
   diagonal Ops A = Ok (map (fun i => entry A i i) (Nseq 0 (N.to_nat (N.min (crow A) (ccol A))))).
 Proof.
-  intros HA Hd.
+  intros HA.
   destruct (Inv_facts A HA) as (WA & SA & CA & DA & A1 & A2 & LxA & LpA & PnA).
   unfold diagonal.
   destruct (for_range_inv
@@ -294,7 +268,7 @@ Proof.
     (fun i acc =>
       do rs <- getN (cp A) i;
       do re <- getN (cp A) (uadd i 1);
-      do d <- diag_loop Ops (S (S (S (N.to_nat (re - rs))))) A i rs re;
+      do d <- diag_loop Ops (S (N.to_nat (re - rs))) A i rs re;
       Ok (d :: acc))
     0 (N.min (crow A) (ccol A)) []) as (acc & Hrun & Hacc).
   - lia.
@@ -302,8 +276,8 @@ Proof.
   - intros i acc I1 I2 ->.
     rewrite (getN_p A i WA) by lia. cbn [bind]. rewrite uadd_small by lia.
     rewrite (getN_p A (i + 1) WA) by lia. cbn [bind].
-    destruct (Hd i I2) as (t & T1 & T2 & T3).
-    rewrite (diag_loop_spec A i t WA ltac:(lia) (SA i ltac:(lia)) A1 T1 T2 T3) by lia.
+    rewrite diag_loop_get_loop.
+    rewrite (get_loop_spec Ops A i i WA ltac:(lia) (SA i ltac:(lia)) A1) by (try lia; intros; lia).
     cbn [bind]. eexists; split; [reflexivity|].
     replace (N.to_nat (i + 1)) with (S (N.to_nat i)) by lia.
     rewrite Nseq_S, map_app, rev_app_distr. cbn [map rev app].
